@@ -35,6 +35,20 @@ func (g g9) segment(pos, recv int) (effects []string, yields bool, val int) {
 		recv, r = 0, 0 // Bind ignores what is sent
 	}
 	switch g.Shape {
+	case "mixed": // yields alternate between Bind (even positions) and BindRecv (odd positions)
+		rr := r
+		if pos > 0 && (pos-1)%2 == 0 {
+			recv, rr = 0, 0 // the previous yield was a plain Bind: what was sent is ignored
+		}
+		if pos == 0 {
+			effects = append(effects, "start")
+		} else {
+			effects = append(effects, fmt.Sprintf("k%d(%d)", pos-1, recv))
+		}
+		if pos == g.N {
+			return effects, false, g.result(rr)
+		}
+		return effects, true, 10*(pos+1) + rr
 	case "chain", "bind":
 		if pos == 0 {
 			effects = append(effects, "start")
@@ -89,6 +103,24 @@ func (g g9) build(log *[]string) seq.Seq[int] {
 		mk = func(i, recv int) seq.Seq[int] {
 			if i == g.N {
 				return ret(g.Echo * recv)
+			}
+			return seq.BindRecv[int](10*(i+1)+g.Echo*recv, func(r int) seq.Seq[int] {
+				eff(fmt.Sprintf("k%d(%d)", i, r))
+				return mk(i+1, r)
+			})
+		}
+		return seq.Delay[int](func() seq.Seq[int] { eff("start"); return mk(0, 0) })
+	case "mixed":
+		var mk func(i, recv int) seq.Seq[int]
+		mk = func(i, recv int) seq.Seq[int] {
+			if i == g.N {
+				return ret(g.Echo * recv)
+			}
+			if i%2 == 0 {
+				return seq.Bind[int](10*(i+1)+g.Echo*recv, func() seq.Seq[int] {
+					eff(fmt.Sprintf("k%d(%d)", i, 0))
+					return mk(i+1, 0)
+				})
 			}
 			return seq.BindRecv[int](10*(i+1)+g.Echo*recv, func(r int) seq.Seq[int] {
 				eff(fmt.Sprintf("k%d(%d)", i, r))
@@ -261,6 +293,7 @@ func C09(tier string) *core.Report {
 			}
 		}
 		gens = append(gens, g9{"bind", n, 0, 0}, g9{"bind", n, 0, 500})
+		gens = append(gens, g9{"mixed", n, 1, 0}, g9{"mixed", n, 1, 500})
 	}
 	gens = append(gens, g9{"loop", 0, 0, 0}, g9{"loop", 0, 1, 0})
 
